@@ -417,6 +417,10 @@ var _ = pr.AutoF
 // ... and when the box is NOT collapsed through, its top margin (collapsed with what adjoins it) has been spent
 // above the box: the list of margins that adjoin the bottom of the box starts empty again (CSS 2.1 §8.3.1: a
 // box's top and bottom margins adjoin only if it is collapsed through); likewise below a box of given height
+// parent / first-child collapsing: the box is moved by the collapse of the margins adjoining its top INCLUDING the
+// top margins its first in-flow descendants add to that list while they are laid out: the list is shared (the
+// very pointer handed to the children), not a snapshot taken before them
+//@   assert after thisBoxAdjoiningMargins#1: thisBoxAdjoiningMargins == adjoiningMargins
 //@   assert after adjoiningMargins#5: lastInFlowChild == nil && !collapsingThrough
 //@   assert after adjoiningMargins#6: lastInFlowChild != nil && box.Height != pr.AutoF
 
@@ -555,3 +559,19 @@ func vBreakLineOrphansWidows() (int, []string) {
 //@   modifies anything
 //@   unclaimed call-*-pre* "box accessors on laid-out boxes"
 //@   assert after skipStack#1: newChild_ != nil ==> len(*adjoiningMargins) >= 1 && (*adjoiningMargins)[len(*adjoiningMargins)-1] == pr.VV(newChild_.Box().MarginBottom)
+
+// css-page-3 §5.2 page progression / css-break-3: the first page is a right page in a left-to-right document
+// and a left page in a right-to-left one, unless break-before on the root forces a side: right and left are
+// physical sides; recto is the right page of an ltr document and the left page of an rtl one, verso the reverse.
+//@ func initializePageMaker
+//@   props C12
+//@   modifies anything
+//@   let ltr = rootBox.Style.GetDirection() == "ltr"
+//@   let rtl = rootBox.Style.GetDirection() == "rtl"
+//@   assert after rightPage#1: pageBreak == "right" && rightPage
+//@   assert after rightPage#2: pageBreak == "left" && !rightPage
+//@   assert after rightPage#3: pageBreak == "recto" && rightPage == ltr
+//@   assert after rightPage#4: pageBreak == "verso" && rightPage == rtl
+//@   assert after rightPage#5: !in(pageBreak, "right", "left", "recto", "verso") && rightPage == ltr
+//@   call append#1 assert[side-kept] arg1[0].RightPage == rightPage
+//@   call append#1 assert[first-page-starts-the-document] len(arg1) == 1 && arg1[0].InitialResumeAt == nil && arg1[0].InitialNextPage.Break == "any"
